@@ -4,6 +4,7 @@
 package fx
 
 import (
+	"encoding/json"
 	"context"
 	"errors"
 	"fmt"
@@ -297,3 +298,51 @@ func ElemBad(e *envDoc) map[string]*kekDoc {
 	}
 	return m
 }
+
+// ---- **T decode target ----
+
+func DecodeOk(b []byte) (string, error) {
+	var d *kekDoc
+	if err := json.Unmarshal(b, &d); err != nil {
+		return "", err
+	}
+	if d == nil {
+		return "", nil
+	}
+	return d.Region, nil
+}
+
+func DecodeBad(b []byte) (string, error) {
+	var d *kekDoc
+	if err := json.Unmarshal(b, &d); err != nil {
+		return "", err
+	}
+	return d.Region, nil
+}
+
+// ---- map field set to nil by Close ----
+
+type store struct {
+	m      map[string]int
+	closed bool
+}
+
+type storeBad struct{ m map[string]int }
+
+func (s *store) Set(k string, v int) {
+	if s.closed {
+		return
+	}
+	s.m[k] = v
+}
+func (s *store) Close()                 { s.closed = true; s.m = nil }
+func (s *storeBad) Set(k string, v int) { s.m[k] = v }
+func (s *storeBad) Close()              { s.m = nil }
+
+// ---- Delete on a storage field ----
+
+type storage interface{ Delete(k string) bool }
+type kc struct{ keys storage }
+
+func (c *kc) DelOk(k string) bool  { return c.keys != nil }
+func (c *kc) DelBad(k string) bool { return c.keys.Delete(k) }
